@@ -1,12 +1,15 @@
 import Mathlib.Analysis.CStarAlgebra.Matrix
 import Mathlib.Analysis.SpecificLimits.Normed
 import LekkerVerif.Properties.C08
+import LekkerVerif.Properties.C02Hier
+import LekkerVerif.Core.Contractive
 
 /-! # C20 — accuracy and success do not degrade with circuit size or depth
 
 What a theorem can say: exact, size-generic facts about the composition — the closed form of a cascade of any
 length, boundedness of every intermediate composite for passive parts, definedness of every merge for strictly
-passive parts.  Floating-point accuracy at scale, recursion limits and run time are measured by the harness
+passive parts - lifted to the whole elimination: a network of strictly passive parts of *any size* solves, with any valid
+schedule, and the result is again strictly passive; a hierarchy of *any depth* solves to the operator of the flat circuit.  Floating-point accuracy at scale, recursion limits and run time are measured by the harness
 (cascades of 2000, meshes, resonant chains, 60-level nests) and labelled as tests. -/
 
 open Matrix
@@ -74,3 +77,49 @@ theorem C20_defined (X Y : Matrix k k ℂ) (hX : ‖X‖ ≤ 1) (hY : ‖Y‖ < 
     _ < 1 := by simpa using hY
 
 end defined
+
+section any_size
+open NetD Solve
+
+/-- **success at every size**: a well-formed, non-empty network over `ℂ` all of whose components are strictly passive
+(outgoing power `≤ c ·` incoming power with `0 ≤ c < 1`: lossy parts) *always* solves - whatever the number of components,
+the wiring (feedback loops included) and the valid merge schedule; no merge can meet a singular inner system, and every
+intermediate composite, and the result, is again `c`-contractive (nothing grows along the elimination) -/
+theorem C20_strictly_passive_network_solves (net : NetD ℂ) (wf : net.WF) (hidx : net.IdxWF) (hne : net.comps ≠ [])
+    (c : ℝ) (h0 : 0 ≤ c) (hc : c < 1) (hpass : ∀ s ∈ net.initial, Contr c s)
+    (sched) (hv : Solve.ValidSched sched) :
+    ∃ total, net.solveWith sched = .ok total ∧ Contr c total :=
+  NetD.solveWith_ok_of_strictly_passive' net wf hidx hne c h0 hc hpass sched hv
+
+/-- … in particular with the pin-count heuristic of `Solver.solve` -/
+theorem C20_strictly_passive_network_solves_heuristic (net : NetD ℂ) (wf : net.WF) (hidx : net.IdxWF)
+    (hne : net.comps ≠ []) (c : ℝ) (h0 : 0 ≤ c) (hc : c < 1) (hpass : ∀ s ∈ net.initial, Contr c s) :
+    ∃ total, net.solveWith Solve.pySched = .ok total ∧ Contr c total :=
+  NetD.solveWith_pySched_ok_of_strictly_passive net wf hidx hne c h0 hc hpass
+
+/-- one merge of two strictly passive composites: defined, and strictly passive with the same factor -/
+theorem C20_strictly_passive_merge (c : ℝ) (h0 : 0 ≤ c) (hc : c < 1) {n k m : Type*} [Fintype n] [Fintype k] [Fintype m]
+    [DecidableEq n] [DecidableEq k] [DecidableEq m] (A : SM ℂ n k) (B : SM ℂ k m)
+    (hA : A.ContrWrt c epow epow) (hB : B.ContrWrt c epow epow) :
+    IsUnit (1 - A.S12 * B.S21) ∧ (Generated.add A B).ContrWrt c epow epow := by
+  have hu := isUnit_of_contractive_complex c h0 hc A B hA hB
+  refine ⟨hu, ?_⟩
+  rw [Generated.add_eq]
+  exact star_contractive_complex c (le_of_lt hc) A B hu hA hB
+
+/-- **every depth**: the recursive solve of a well-formed hierarchy of any depth, when it returns, carries the solution
+operator of the flat circuit (C02_hier_exec_sound; induction over the tree, no bound on the nesting) -/
+theorem C20_any_depth {F : Type} [Field F] [DecidableEq F] (sched : List (St F) → Option (Nat × Nat)) (h : HNet F)
+    (w : HNet.WFTree h) (c : CompD F) (hs : HNet.solveH sched h = .ok c) :
+    ∃ T, h.flat.SolvedBy T ∧ ∀ x ∈ c.pins, ∀ y ∈ c.pins, T (h.resolve x) (h.resolve y) = c.sem x y := by
+  obtain ⟨T, h1, _, h3⟩ := C02_hier_exec_sound sched h w c hs
+  exact ⟨T, h1, h3⟩
+
+/-- non-vacuity: two half-attenuators in a chain are a strictly passive, well-formed network -/
+example (sched) (hv : Solve.ValidSched sched) :
+    ∃ total, ContractiveExample.twoHalfAttenuators.solveWith sched = .ok total ∧ Contr (1 / 4) total :=
+  C20_strictly_passive_network_solves _ ContractiveExample.twoHalfAttenuators_wf ContractiveExample.twoHalfAttenuators_idxWF
+    (by simp [ContractiveExample.twoHalfAttenuators]) (1 / 4) (by norm_num) (by norm_num)
+    ContractiveExample.twoHalfAttenuators_contr sched hv
+
+end any_size
